@@ -7,7 +7,6 @@ import (
 	"fmt"
 
 	pf "github.com/weedbox/pokerface"
-	"github.com/weedbox/pokerface/combination"
 	"pgregory.net/rapid"
 
 	"verif/harness/cards"
@@ -84,9 +83,11 @@ func (c *Cfg) Positions(i int) []string {
 }
 
 func (c *Cfg) Options() *pf.GameOptions {
+	// the ranking table comes from the engine's own option constructors, as a
+	// caller would get it
 	o := pf.NewStardardGameOptions()
 	if c.ShortTable {
-		o.CombinationPowers = combination.CombinationPowerShortDeck
+		o = pf.NewShortDeckGameOptions()
 	}
 	o.Ante, o.Blind.SB, o.Blind.BB, o.Blind.Dealer = c.Ante, c.SB, c.BB, c.DB
 	o.Limit = c.Limit
@@ -128,6 +129,7 @@ type Profile struct {
 	ThemedDecks bool // tie / flush / straight inducing decks
 	Showdown    bool // favour hands that reach a showdown
 	Cuts        bool // C07: rebuild from JSON at drawn wait points
+	NoCuts      bool // never restore from JSON (stages that need the live object)
 	NoBBGames   bool // also generate button-blind / ante-only games (no seat holds "bb", SB = BB = 0)
 	noPrelude   bool
 	SmallStacks bool // C05/C12: tight stacks so that bounds bite
